@@ -377,6 +377,52 @@ pub fn run_c16(ctx: &mut Ctx) {
             ctx.add("exhaustive_dense_alphabet", total * (c + 1) / chunks - total * c / chunks);
         }
     }
+    // atoms at and around every length-prefix boundary, written with every prefix width that can hold the length
+    // (minimal and over-long), payload fully present, alone and inside a pair
+    {
+        let lens: &[usize] = if miri {
+            &[0, 1, 0x3f, 0x40]
+        } else if ctx.light {
+            &[0, 1, 2, 0x3e, 0x3f, 0x40, 0x41, 0x1fff, 0x2000]
+        } else {
+            &[0, 1, 2, 0x3e, 0x3f, 0x40, 0x41, 0x1ffe, 0x1fff, 0x2000, 0x2001, 0xf_fffe, 0xf_ffff, 0x10_0000, 0x10_0001]
+        };
+        for (k, len) in lens.iter().enumerate() {
+            let cid = DIRECTED | id;
+            id += 1;
+            if !ctx.want(cid) {
+                continue;
+            }
+            let _ = k;
+            for width in 1..=6usize {
+                let l = *len as u64;
+                let fits = match width {
+                    1 => l < 0x40,
+                    2 => l < 0x2000,
+                    3 => l < 0x10_0000,
+                    4 => l < 0x800_0000,
+                    5 => l < 0x4_0000_0000,
+                    _ => l < 0x200_0000_0000,
+                };
+                if !fits {
+                    continue;
+                }
+                let marker: [u8; 6] = [0x80, 0xc0, 0xe0, 0xf0, 0xf8, 0xfc];
+                let mut prefix: Vec<u8> = (0..width).map(|i| (l >> (8 * (width - 1 - i))) as u8).collect();
+                prefix[0] |= marker[width - 1];
+                for first in [0x00u8, 0x7f, 0x80, 0xff] {
+                    let mut b = prefix.clone();
+                    b.extend(std::iter::repeat_n(first, *len));
+                    check16(ctx, &b);
+                    let mut p = vec![0xffu8];
+                    p.extend_from_slice(&b);
+                    p.push(0x80);
+                    check16(ctx, &p);
+                    ctx.count("length_prefix_boundary_atoms");
+                }
+            }
+        }
+    }
     let n = ctx.n(400_000, 60_000_000);
     random_cases!(ctx, n, |r, _i| {
         let b = match r.below(10) {
